@@ -85,6 +85,7 @@ def drive_life(recipe):
             # a scheduler listing the assignable operators (both ways) between two requests: pure queries
             from eudoxia.workload.runtime_status import ASSIGNABLE_STATES
             for p in w.pipes:
+                p.to_dict()
                 p.runtime_status().get_ops(ASSIGNABLE_STATES, require_parents_complete=False)
                 p.runtime_status().get_ops(ASSIGNABLE_STATES, require_parents_complete=True)
         before = w.states()
